@@ -77,7 +77,10 @@ class EZSP:
         status = t.sl_Status.from_ember_status(args[0])
 
         for listener in self._stack_status_listeners[status]:
-            listener.set_result(status)
+            # A listener that is already done (e.g. it timed out or was completed by an earlier event
+            # in this loop iteration) may still be listed: its done-callback has not run yet
+            if not listener.done():
+                listener.set_result(status)
 
     @contextlib.contextmanager
     def wait_for_stack_status(self, status: t.sl_Status) -> Generator[asyncio.Future]:
